@@ -25,7 +25,7 @@ IN_BREAKING = ["img_missing", "img_empty", "img_garbage", "img_directory", "img_
                "mask_garbage", "mask_wrong_size", "classif_wrong_size", "segm_garbage", "disp_reversed",
                "grid_one_band", "grid_three_bands", "grid_wrong_size", "grid_min_gt_max", "right_grid_with_left_ints",
                "right_list", "left_disp_missing", "right_img_wrong_size", "right_grid_three_bands", "mask_empty_string",
-               "classif_empty_string", "segm_empty_string"]
+               "classif_empty_string", "segm_empty_string", "grid_min_gt_max_on_nodata_value"]
 IN_PRESERVING = ["nodata_nan_str", "nodata_nan_float", "nodata_int", "extras_null", "classif_ok", "segm_ok",
                  "mask_ok", "grid_int_dtype"]
 # fault-then-repair pairs: a path is named while nothing readable is there, later the same path holds a good file
@@ -211,6 +211,17 @@ def apply_in_op(op, inp, w, tmp, uid):
             data = np.stack([lo, hi])
         files.write_raster(p(name + ".tif"), data, dtype="float32")
         inp["left"]["disp"] = p(name + ".tif")
+        if isinstance(inp["right"].get("disp"), list):
+            inp["right"]["disp"] = None
+    elif name == "grid_min_gt_max_on_nodata_value":
+        # the file declares a nodata value, and the pixel where min > max happens to carry it
+        lo = np.full((rows, cols), -2, dtype=np.float32)
+        hi = np.full((rows, cols), 2, dtype=np.float32)
+        r, c = op.get("pixel", [1, 1])
+        lo[r % rows, c % cols] = 0
+        hi[r % rows, c % cols] = -2
+        files.write_raster(p("grid_nd.tif"), np.stack([lo, hi]), dtype="float32", nodata=0)
+        inp["left"]["disp"] = p("grid_nd.tif")
         if isinstance(inp["right"].get("disp"), list):
             inp["right"]["disp"] = None
     elif name == "right_grid_with_left_ints":
